@@ -498,25 +498,34 @@ def verify_wrappers(units):
     return 1 if bad else 0
 
 
+def load_links():
+    # units/links.json plus every units/links_<unit>.json (tables delivered with later units)
+    import glob
+    out = []
+    for f in [os.path.join(VERIF, 'units', 'links.json')] + sorted(glob.glob(os.path.join(VERIF, 'units', 'links_*.json'))):
+        out.extend(json.load(open(f))['links'])
+    return out
+
+
 def main():
     args = sys.argv[1:]
     if '--verify' in args:
         units = [a for a in args if not a.startswith('-')]
         if not units:
-            links = json.load(open(os.path.join(VERIF, 'units', 'links.json')))['links']
+            links = load_links()
             units = sorted(set(os.path.basename(l['wrapper']['file'])[:-3] for l in links if l.get('wrapper')))
         return verify_wrappers(units)
     if '--vacuity' in args:
         units = [a for a in args if not a.startswith('-')]
         if not units:
-            links = json.load(open(os.path.join(VERIF, 'units', 'links.json')))['links']
+            links = load_links()
             units = sorted(set(os.path.basename(l['wrapper']['file'])[:-3] for l in links if l.get('wrapper')))
         return wrapper_vacuity(units)
     verbose = '-v' in args
     only = None
     if '--only' in args:
         only = args[args.index('--only') + 1]
-    links = json.load(open(os.path.join(VERIF, 'units', 'links.json')))['links']
+    links = load_links()
     rows = []
     bad = 0
     for link in links:
